@@ -55,3 +55,38 @@ PROPS = {
         assumptions=["record content of secondaries (receiver's own samples at the frame) is covered by the C01 pipeline check, not here"],
     ),
 }
+
+
+# ---------------------------------------------------------------------------------------------
+# Per-property files lib/props/Cxx.py (one per property, so properties can be developed
+# independently).  Each defines:
+#   CFG       dict like the entries above (rule, nontrivial, jobs, trusted_base, assumptions, extra, ...)
+#   MANIFEST  dict(text=..., note=..., technique=...) for MANIFEST.json
+#   THEOREMS  list of (module, fully-qualified theorem name)
+#   CLAIMED   bool: listed under checks (True) or not_applicable (False) in MANIFEST.json
+#   NOT_YET   optional reason string used while CLAIMED is False
+import importlib.util as _ilu, os as _os, json as _json, glob as _glob
+
+_HERE = _os.path.dirname(_os.path.abspath(__file__))
+MODS = {}
+for _p in sorted(_glob.glob(_os.path.join(_HERE, "props", "C*.py"))):
+    _id = _os.path.basename(_p)[:-3]
+    _spec = _ilu.spec_from_file_location("props_" + _id, _p)
+    _m = _ilu.module_from_spec(_spec)
+    _m.seeds = seeds
+    _spec.loader.exec_module(_m)
+    MODS[_id] = _m
+    PROPS[_id] = _m.CFG
+
+
+def theorems(prop):
+    if prop in MODS:
+        return [dict(module=m, name=n) for (m, n) in MODS[prop].THEOREMS]
+    pj = _json.load(open(_os.path.join(_os.path.dirname(_HERE), "lean", "props.json")))
+    return pj.get(prop, [])
+
+
+def claimed(prop):
+    if prop in MODS:
+        return bool(getattr(MODS[prop], "CLAIMED", False))
+    return prop in PROPS
